@@ -25,7 +25,10 @@ RULE = ("pairs of YAML documents (root mapping or sequence, one nested sequence)
         "yaml-merge run (multi-document left file, multi-document right file, one file of three documents, three files; "
         "documents from the pools plus anchor-free ones): under stop the command must refuse iff at some step of the series "
         "- first, middle or last - a same-name anchor differs from the one accumulated so far; otherwise its output is that of "
-        "the same series of merges through the API.  distinct_nontrivial = distinct (left, right, mode) with at "
+        "the same series of merges through the API.  For 30 % of the random pairs either side is drawn from further shapes: slots "
+        "inside an ANCHORED Hash / Array (nested anchors), anchors defined ON keys and aliases used AS keys (`&x 1: 7`, `*x : 8`), "
+        "Hashes with a YAML merge key to an equal anchored Hash on both sides; anchored keys count as nodes of their name in "
+        "every clause.  distinct_nontrivial = distinct (left, right, mode) with at "
         "least one anchor name present in both documents.")
 
 NAMES = ["x", "y", "x_1"]
@@ -106,7 +109,45 @@ def render_doc(shape, keys, slots):
         return "\n".join(lines) + "\n"
     if shape == "scalar":
         return r[0] + "\n"
+    if shape == "mapbox":       # slots inside an ANCHORED Hash (nested anchors); a third slot outside it
+        lines = ["box: &box%s" % keys[0], "  p: %s" % r[0], "  q: %s" % r[1]] + (["%s: %s" % (keys[2], r[2])] if len(r) > 2 else [])
+        return "\n".join(lines) + "\n"
+    if shape == "maplbox":      # slots inside an ANCHORED Array
+        lines = ["lst: &box%s [%s, %s]" % (keys[0], r[0], r[1])] + (["%s: %s" % (keys[2], r[2])] if len(r) > 2 else [])
+        return "\n".join(lines) + "\n"
+    if shape == "seqbox":
+        lines = ["- &box%s [%s, %s]" % (keys[0], r[0], r[1])] + (["- %s" % r[2]] if len(r) > 2 else [])
+        return "\n".join(lines) + "\n"
+    if shape == "mapkeydef":    # the first two slots are KEYS: `&x 1: 7` defines the anchor on a key, `*x : 8` uses it as a key
+        lines = []
+        for i, sl in enumerate(slots[:2]):
+            lines.append("m%d:" % i)
+            lines.append("  %s: %d" % (render_key_slot(sl), 7 + i))
+        if len(r) > 2:
+            lines.append("%s: %s" % (keys[2], r[2]))
+        return "\n".join(lines) + "\n"
+    if shape == "mapmk":        # Hashes that pull an anchored Hash in with a YAML merge key; both documents carry an EQUAL &base
+        lines = ["base: &base {p: 1, q: 2}", "u%s:" % keys[0], "  <<: *base", "  k: %s" % r[0]]
+        if len(r) > 2:
+            lines.append("  j: %s" % r[1])
+        lines.append("%s: %s" % (keys[2], r[-1]))
+        return "\n".join(lines) + "\n"
     raise ValueError(shape)
+
+
+KEYABLE = {"1", "2", "1.0", "true", "a", "false", "0.0"}
+
+
+def render_key_slot(s):
+    """A slot at a key position; values that do not make a plain key keep the slot as a value under a fixed key."""
+    kind, n, v = s
+    if kind == "plain":
+        return "p" + v
+    if kind == "alias":
+        return "*%s " % n
+    if v in KEYABLE:
+        return "&%s %s" % (n, v)
+    return "kv: %s\n  k%s" % (render_slot(s), n)
 
 
 def all_docs(nslots):
@@ -180,10 +221,18 @@ def canon_oids(pair):
     return [go(pair[0]), go(pair[1])]
 
 
+def kj(k):
+    """A key as comparable data (text / integer keys as they are; Boolean, float, tagged keys as their scalar JSON text)."""
+    try:
+        return codec.key_to_json(k)
+    except codec.OutOfModel:
+        return json.dumps(vj(k), sort_keys=True)
+
+
 def plain_json(node):
     """Data of a document for the reload comparison (tags kept as text, anchors dropped)."""
     if isinstance(node, dict):
-        return {"k": "map", "e": [[codec.key_to_json(k), plain_json(v)] for k, v in node.items()]}
+        return {"k": "map", "e": [[kj(k), plain_json(v)] for k, v in node.items()]}
     if isinstance(node, list):
         return {"k": "seq", "i": [plain_json(v) for v in node]}
     return vj(node)
@@ -194,7 +243,9 @@ def anchored_nodes(node, acc=None):
     if acc is None:
         acc = []
     if isinstance(node, dict):
-        for v in node.values():
+        for k, v in node.items():
+            if codec.anchor_of(k):      # an anchor defined on (or an alias used as) a key
+                acc.append((codec.anchor_of(k), k, id(k)))
             anchored_nodes(v, acc)
     elif isinstance(node, list):
         for v in node:
@@ -644,6 +695,15 @@ def gen_cases(chk):
                 + [mk("scalar", rkeys, s) for s in docs1] * 20),
     }
     chk.extra_cov["document_pool"] = {k: [len(v[0]), len(v[1])] for k, v in pools.items()}
+    # nested anchors (slots inside an anchored Hash / Array), anchors defined on keys and aliases used as keys, Hashes with
+    # YAML merge keys to an (equal) anchored Hash: all 2-slot documents and a seeded sample of the 3-slot ones
+    some3 = rng.sample(docs3, min(len(docs3), 12000))
+    extra = {
+        "map": tuple([mk(sh, ks, sl) for sh in ("mapbox", "maplbox", "mapkeydef", "mapmk") for sl in docs2 + some3]
+                     for ks in (lkeys, rkeys)),
+        "seq": tuple([mk("seqbox", ks, sl) for sl in docs2 + some3] for ks in (lkeys, rkeys)),
+    }
+    chk.extra_cov["nested_key_mergekey_pool"] = {k: [len(v[0]), len(v[1])] for k, v in extra.items()}
     if chk.tier == "thorough":
         p2l = [mk("map", lkeys, s) for s in docs2]
         p2r = [mk("map", rkeys, s) for s in docs2]
@@ -668,7 +728,12 @@ def gen_cases(chk):
         cases.append({"l": "sub: {k0: 0}\n" + rng.choice(pl_map), "r0": rng.choice(pr_map), "r": rng.choice(pr_map),
                       "mode": rng.choice(MODES), "mergeat": "sub", "arrays": rng.choice(["all", "unique"])})
     for _ in range(n):
-        pl, pr = pools[rng.choice(["map", "map", "seq"])]
+        kind = rng.choice(["map", "map", "seq"])
+        pl, pr = pools[kind]
+        if rng.random() < 0.3:
+            pl = extra[kind][0]
+        if rng.random() < 0.3:
+            pr = extra[kind][1]
         cases.append({"l": rng.choice(pl), "r": rng.choice(pr), "mode": rng.choice(MODES),
                       "arrays": rng.choice(["all", "all", "unique", "left", "right"])})
     # the policy as the yaml-merge command receives it: command line, configuration file, both, none
